@@ -1,5 +1,5 @@
 """Sidecar contracts for gwf. Each module has install(eng)."""
-MODULES = ["vocab", "c_core", "c_hashes", "c_scheduling", "c_graph", "c_backend", "c_submit", "c_filtering", "c_conf", "c_plugins", "c_local", "c_ops", "c_workflow", "c_lemmas", "c_enumerators"]
+MODULES = ["vocab", "c_core", "c_hashes", "c_scheduling", "c_graph", "c_backend", "c_submit", "c_filtering", "c_conf", "c_plugins", "c_local", "c_ops", "c_workflow", "c_find", "c_lemmas", "c_enumerators"]
 
 
 def install_all(eng, modules=None):
